@@ -71,6 +71,12 @@ func c05BodyAlphabet(p, q string) []string {
 		"gv = " + p, p + " = " + p + " * 2", "gw = [" + p + "]", "(for i = 2 { " + p + " }) + (for j = 2 { j })", "rdg(" + p + ")", "eval(\"" + p + "\")", "[" + p + ", " + p + " + 1][" + p + " - " + p + "]", "sprintf(\"%v\", " + p + ")", "min(" + p + ", 2)", "\"s\" * " + p,
 		// the parameter stored in containers that are read after it changes
 		"mm = {}; mm[" + p + "] = " + p + "; gw = mm", "gw = [" + p + ", {" + p + ": " + p + "}]", "aa = [0, 0, 0, 0]; aa[1] = " + p + "; gw = aa",
+		// evaluation order with side effects on the parameter; the parameter as a list-loop variable; called; a closure
+		// over it read inside a counted loop that reuses its name
+		p + " + ++" + p, p + " + (" + p + " = 5)", "{" + p + ": ++" + p + "}", "[" + p + ", " + p + "++, " + p + "]", "for " + p + " = [5, 6] { println(" + p + ") }", p + "()",
+		"g = func() { " + p + " }; for " + p + " = 2 { println(g()) }",
+		// the value of a loop expression is the last value of its body
+		"gw = for i = 4 { if i == 2 { break }; i }", "gw = for " + p + " = 3 { " + p + " }", "gw = [for i = 0:3 { i }, for j = 2 { " + p + " }]", "gw = for i = 3 { " + p + " = " + p + " + 1; " + p + " - 1 }",
 		// the parameter used as if it were a container
 		p + "[0] = 1", p + ".k = 1", p + "[0]", "del(" + p + "[0])", p + "[0:1]", p + "[0]++",
 	}
